@@ -50,6 +50,9 @@ type serverSpec struct {
 	Trace      []optSpec `json:"trace,omitempty"`
 	TraceOuter bool      `json:"trace_outer,omitempty"`
 	Path       string    `json:"path"` // URL path (http) or method name (grpc): Call|Health / Stream|HealthStream
+	// Forward (gRPC hops inside chains): the handler copies its incoming metadata into the
+	// outgoing context before calling the next hop, as a gateway does.
+	Forward bool `json:"forward,omitempty"`
 }
 
 // fullPath is what discard patterns are documented to match: the URL path or
@@ -576,6 +579,11 @@ func genChain(r *vc.Rand) chainCase {
 	for i := 0; i < d; i++ {
 		c.Hops = append(c.Hops, genServer(r, genTransport(r), true))
 	}
+	for i := range c.Hops {
+		if c.Hops[i].Transport != "http" && i+1 < len(c.Hops) && r.Chance(1, 3) {
+			c.Hops[i].Forward = true
+		}
+	}
 	// gRPC refuses non-ASCII metadata values on the client side: keep forwarded IDs printable
 	// whenever a real gRPC hop is in the chain
 	ascii := false
@@ -615,6 +623,9 @@ func valueClass(v string, limit int) string {
 func sigServer(s serverSpec) string {
 	var b strings.Builder
 	fmt.Fprintf(&b, "%s/%v/", s.Transport, s.Real)
+	if s.Forward {
+		b.WriteString("fw/")
+	}
 	if s.MountRID {
 		b.WriteString("R[")
 		for _, o := range s.RID {
